@@ -49,8 +49,14 @@ func Reach(fn *ssa.Function, cut map[Edge]bool) map[*ssa.BasicBlock]bool {
 // index taken) — used to evaluate a function's control skeleton for chosen values of a few numeric atoms while
 // every other branch stays two-way.
 func ReachWith(fn *ssa.Function, cut map[Edge]bool, decide func(*ssa.If) (int, bool)) map[*ssa.BasicBlock]bool {
+	r, _ := ReachExec(fn, cut, decide)
+	return r
+}
+
+// ReachExec also returns the executable edges.
+func ReachExec(fn *ssa.Function, cut map[Edge]bool, decide func(*ssa.If) (int, bool)) (map[*ssa.BasicBlock]bool, map[Edge]bool) {
 	if len(fn.Blocks) == 0 {
-		return nil
+		return nil, nil
 	}
 	exec := map[Edge]bool{}
 	reach := map[*ssa.BasicBlock]bool{fn.Blocks[0]: true}
@@ -156,7 +162,33 @@ func ReachWith(fn *ssa.Function, cut map[Edge]bool, decide func(*ssa.If) (int, b
 			}
 		}
 	}
-	return reach
+	return reach, exec
+}
+
+// PhiValues returns the incoming values of phi along executable edges.
+func PhiValues(phi *ssa.Phi, exec map[Edge]bool) []ssa.Value {
+	b := phi.Block()
+	var out []ssa.Value
+	for i, p := range b.Preds {
+		k := 0
+		for j := 0; j < i; j++ {
+			if b.Preds[j] == p {
+				k++
+			}
+		}
+		for si, s := range p.Succs {
+			if s == b {
+				if k == 0 {
+					if exec[Edge{p, si}] {
+						out = append(out, phi.Edges[i])
+					}
+					break
+				}
+				k--
+			}
+		}
+	}
+	return out
 }
 
 // Guarded reports whether every instruction in effects is unreachable once the pass edges are cut.
